@@ -51,6 +51,11 @@ CLAIMED = {
         "level": "Decides structurally: swap happens before any notification, each accessor is notified exactly once per update with (offset,len,previous), the notify decision compares decoded old (from the previous block) and decoded new through the same decoder and fires _on_change(self,old,new) exactly when they differ; the byte-range filter never drops an overlapping update (all orderings of the end points); watch de-duplicates, unwatch/unwatch_all remove, each live observer is called once.",
         "note": "NOT decided: raising or re-entrant observers; ordering between accessors; histories of watch/unwatch interleaved with updates beyond the list discipline.",
     },
+    "C04": {
+        "technique": "symbolic round trip: /repo's builders interpreted with symbolic fields -> symbolic byte string -> /repo's can_handle of every class (exclusivity) and its decoder, decoded attributes compared bit-for-bit; regex-AST inspection of the framing pattern; split-arity rule; constant folding of the codec; exhaustive FILES-name resolution",
+        "level": "For each of the 29 message builders the encoder/decoder layout agreement is decided for ALL field values at once (formats, offsets, byte order, signedness, payload slices, record loops), acceptance by exactly the own handler class, reply-addressing orientation (SRCCN/DESCN swap), unambiguity conditions of the framing regex, HELLO/FILES text parts (FILES: all 895 shipped platform x cfg x log names), latin-1 codec at every encode/decode site. Two genuine defects repaired (fix: commits), two recorded (SETWC/WCREQ accepted by no handler).",
+        "note": "Trusted: vlib.symbytes model of struct.pack/unpack, re._parser. NOT decided: truncated/malformed datagrams, out-of-range field values, identifiers containing framing tags.",
+    },
 }
 
 NOT_APPLICABLE = {f"C{n:02d}": PENDING for n in range(1, 21) if f"C{n:02d}" not in CLAIMED}
